@@ -1,3 +1,5 @@
+//go:build mcbuild
+
 // C11: stream.Batch / BatchFunc on the virtual clock. Engine E2.
 package main
 
